@@ -87,6 +87,7 @@ pub struct Ctx {
 }
 
 pub const SHARDS: usize = 64;
+pub static IN_CHILD: std::sync::atomic::AtomicBool = std::sync::atomic::AtomicBool::new(false);
 
 thread_local! {
     static SHARD: usize = {
@@ -211,7 +212,7 @@ impl Ctx {
 
     pub fn machinery_error(&self, s: String) {
         let mut g = self.machinery_errors.lock().unwrap();
-        if g.len() < 5 {
+        if g.len() < 5 && !IN_CHILD.load(Ordering::Relaxed) {
             eprintln!("MACHINERY ERROR: {}", truncate(&s, 400));
         }
         g.push(truncate(&s, 400));
@@ -327,7 +328,7 @@ impl Ctx {
         }
         if let Some(a) = j["machinery_errors"].as_array() {
             for x in a {
-                self.machinery_errors.lock().unwrap().push(s(x));
+                self.machinery_error(s(x));
             }
         }
         if let Some(a) = j["caps"].as_array() {
@@ -641,6 +642,7 @@ pub fn par_for_ctx(ctx: &Ctx, n: usize, f: impl Fn(usize)) {
         }
         if pid == 0 {
             // child
+            IN_CHILD.store(true, Ordering::Relaxed);
             unsafe { libc::close(fds[0]) };
             for (_, file) in children.drain(..) {
                 std::mem::forget(file);
